@@ -529,7 +529,8 @@ _model = None
 def _worker(args):
     """args = (idx, blt, opts, timeout, oracle_names); returns dict"""
     global _model
-    idx, blt, opts, timeout, oracle_names, use_model = args
+    idx, blt, opts, timeout, oracle_names, use_model = args[:6]
+    want_e2e = len(args) > 6 and args[6]
     t0 = time.time()
     try:
         r = impl_count(blt, opts, timeout=timeout, want_E=bool(oracle_names))
@@ -549,13 +550,18 @@ def _worker(args):
         if _model is None:
             _model = Model('fast')
         out['model'] = _model.run_timeout(r['tokens'], max(timeout, 10))
+        if want_e2e:
+            # the same case through the composed pipeline: the reader model parses the text, the count model counts it
+            t = r['tokens']
+            out['e2e'] = _model.run_timeout([tok_s('e2e')] + t[1:14] + [tok_i(0)] + [tok_i(ord(ch)) for ch in blt], max(timeout, 10))
     out['wall'] = time.time() - t0
     return out
 
-def run_cases(cases, oracle_names=(), timeout=20, nproc=None, use_model=True):
-    """cases: list of (blt, opts).  Returns list of result dicts (same order)."""
+def run_cases(cases, oracle_names=(), timeout=20, nproc=None, use_model=True, e2e=0):
+    """cases: list of (blt, opts).  Returns list of result dicts (same order).  e2e: the first e2e cases also run
+    through the composed reader+count model (text in, trace out)."""
     nproc = nproc or min(16, os.cpu_count() or 4)
-    args = [(i, blt, opts, timeout, tuple(oracle_names), use_model) for i, (blt, opts) in enumerate(cases)]
+    args = [(i, blt, opts, timeout, tuple(oracle_names), use_model, i < e2e) for i, (blt, opts) in enumerate(cases)]
     if len(cases) < 8 or nproc == 1:
         return [_worker(a) for a in args]
     ctx = multiprocessing.get_context('fork')
